@@ -22,8 +22,21 @@ explicify_hydrogens, implicify_hydrogens, enumerate_tautomers (each with the arg
 
 Canonical strings of centres with constitutionally equivalent substituents are not numbering independent (documented gap of
 C01): an input or output whose OWN canonical string changes under the renumbering is counted as gap_hit, not as violation.
+
+Coverage audit (every keyword of the observed functions, every input class a branch of the anchored code needs):
+  * keywords: logging=True / ignore=False / prepare_molecule=False / start_map of the six observed functions are variants of FUNCS under
+    the same contracts (OPTION_BASE names the default-keyword function; a violation that the default-keyword function shows on the same
+    input under the same renumbering is reported under the default function's key: same root cause, independent of the keyword);
+    every keyword of enumerate_tautomers (TAUT_OPTS) under the composition contracts
+  * renumbering flavours: permutation of the same numbers, sparse numbers up to 5000 (gaps, > 999), descending + shifted numbers,
+    permutation + shuffled insertion order of atoms and bonds
+  * input classes: Kekule forms of the corpus molecules, the decorated graph atlas (the property's generator), radicals and biradicals,
+    sulfonium / thiocarbenium zwitterions, explicit hydrogens and hydrogen isotopes, isotope labels, cyclopentadienyl anions, single atoms and
+    the empty molecule, sugars / cumulenes / annular hetero-arene tautomers, every documented charge-rule example with N- and C-methyl
+    substituents on every position (both sides of the rule)
 """
 import itertools
+import os
 import random
 import time
 
@@ -49,12 +62,64 @@ FUNCS = {
     'explicify_hydrogens()': (lambda m: m.explicify_hydrogens(), REARR, True),
     'implicify_hydrogens()': (lambda m: m.implicify_hydrogens(), REARR, True),
 }
+# keyword variants: name -> default-keyword function whose contracts (and root causes) they share
+OPTION_BASE = {
+    'standardize(logging=True, ignore=False)': 'standardize()',
+    'standardize(fix_tautomers=False, logging=True, ignore=False)': 'standardize(fix_tautomers=False)',
+    'canonicalize(logging=True, ignore=False)': 'canonicalize()',
+    'canonicalize(fix_tautomers=False, logging=True, ignore=False)': 'canonicalize(fix_tautomers=False)',
+    'canonicalize(keep_kekule=True, logging=True)': 'canonicalize(keep_kekule=True)',
+    'canonicalize(keep_kekule=True, fix_tautomers=False, logging=True)': 'canonicalize(keep_kekule=True, fix_tautomers=False)',
+    'fix_resonance(logging=True)': 'fix_resonance()',
+    'neutralize(logging=True)': 'neutralize()',
+    'neutralize(keep_charge=False, logging=True)': 'neutralize(keep_charge=False)',
+    'standardize_charges(logging=True)': 'standardize_charges()',
+    'standardize_charges(prepare_molecule=False)': 'standardize_charges()',
+    'implicify_hydrogens(logging=True)': 'implicify_hydrogens()',
+    'explicify_hydrogens(start_map=max+17)': 'explicify_hydrogens()',
+}
+FUNCS.update({
+    'standardize(logging=True, ignore=False)': (lambda m: m.standardize(logging=True, ignore=False), REARR, False),
+    'standardize(fix_tautomers=False, logging=True, ignore=False)': (lambda m: m.standardize(fix_tautomers=False, logging=True, ignore=False), REARR, True),
+    'canonicalize(logging=True, ignore=False)': (lambda m: m.canonicalize(logging=True, ignore=False), REARR, False),
+    'canonicalize(fix_tautomers=False, logging=True, ignore=False)': (lambda m: m.canonicalize(fix_tautomers=False, logging=True, ignore=False), REARR, True),
+    'canonicalize(keep_kekule=True, logging=True)': (lambda m: m.canonicalize(keep_kekule=True, logging=True), REARR, False),
+    'canonicalize(keep_kekule=True, fix_tautomers=False, logging=True)': (lambda m: m.canonicalize(keep_kekule=True, fix_tautomers=False, logging=True), REARR, True),
+    'fix_resonance(logging=True)': (lambda m: m.fix_resonance(logging=True), REARR, True),
+    'neutralize(logging=True)': (lambda m: m.neutralize(logging=True), 'neutralize', True),
+    'neutralize(keep_charge=False, logging=True)': (lambda m: m.neutralize(keep_charge=False, logging=True), 'neutralize', True),
+    'standardize_charges(logging=True)': (lambda m: m.standardize_charges(logging=True), REARR, True),
+    'standardize_charges(prepare_molecule=False)': (lambda m: m.standardize_charges(prepare_molecule=False), REARR, True),
+    'implicify_hydrogens(logging=True)': (lambda m: m.implicify_hydrogens(logging=True), REARR, True),
+    'explicify_hydrogens(start_map=max+17)': (lambda m: m.explicify_hydrogens(start_map=max(m._atoms, default=0) + 17), REARR, True),
+})
+BASE_FUNCS = [f for f in FUNCS if f not in OPTION_BASE]
+CHARGE_FUNCS = ['standardize_charges()', 'standardize_charges(logging=True)', 'standardize_charges(prepare_molecule=False)',
+                'canonicalize(fix_tautomers=False)', 'canonicalize()', 'canonicalize(keep_kekule=True, fix_tautomers=False)',
+                'canonicalize(keep_kekule=True, logging=True)']
 TAUT_LIMIT = 24
+# VERIF_B14_MEASURE=1: also run the attribution experiments of the known families on inputs that do not fail (tightness table: members / failing)
+MEASURE = bool(os.environ.get('VERIF_B14_MEASURE'))
+# every keyword of enumerate_tautomers (prepare_molecules=False is called on the Kekule form without explicit hydrogens: its documented precondition)
+TAUT_OPTS = {
+    'zwitter=False': {'zwitter': False},
+    'partial=True': {'partial': True},
+    'increase_aromaticity=False': {'increase_aromaticity': False},
+    'keep_sugars=False': {'keep_sugars': False},
+    'heteroarenes=False': {'heteroarenes': False},
+    'keto_enol=False': {'keto_enol': False},
+    'prepare_molecules=False': {'prepare_molecules': False},
+    'partial=True, keep_sugars=False, increase_aromaticity=False': {'partial': True, 'keep_sugars': False, 'increase_aromaticity': False},
+    'limit=1': {'limit': 1},
+    'limit=2': {'limit': 2},
+    'limit=5': {'limit': 5},
+}
 
 
 def _imports():
-    global O, parse, renumber, rnd, smiles
+    global O, I, parse, renumber, rnd, smiles
     from oracles import o14_rules as O
+    from oracles import o14_inputs as I
     from bounded.domains import parse, renumber, rnd
     from chython import smiles
 
@@ -79,12 +144,17 @@ class Acc:
         self.samples = []
         self.viol = []
         self.stats = {}
+        self.members = set()
 
     def stat(self, k, d=1):
         self.stats[k] = self.stats.get(k, 0) + d
 
     def v(self, key, what, witness, native=None):
         self.viol.append((key, what, witness, native))
+
+    def member(self, family):
+        """the family predicate holds for the current (input, function) case - whether or not a contract fails"""
+        self.members.add(family)
 
     def pack(self):
         return self.n, self.keys, self.samples, self.viol, self.stats
@@ -97,31 +167,161 @@ def _perm_of(mp):
 # ---------------------------------------------------------------------------------------------------------------------------
 # contracts of one function on one molecule
 # ---------------------------------------------------------------------------------------------------------------------------
+def _signature(m_in, m_out):
+    return O.resonance_signature(m_in, m_out) or I.radical_signature(m_in, m_out)
+
+
+# contracts that the record of each fix_resonance signature describes (another contract failing with the signature present keeps its own key)
+SIG_CONTRACTS = {'ammonium-exit': ('conserve', 'valid', 'idempotent', 'renumber'), 'aromatic-bond-arithmetic': ('conserve', 'valid', 'idempotent', 'renumber'),
+                 'radical-pairing-valence': ('valid',)}
+
+
+def _sig_key(sg, contract):
+    return f'resonance:{sg}'
+
+
+def _rule_fires_without_labels(f, m0):
+    """the function rewrites the label-free molecule (a rule fires at all): part of the isotope family predicate"""
+    c = m0.copy()
+    for _, a in c.atoms():
+        a._isotope = None
+    c.flush_cache()
+    s0 = str(c)
+    try:
+        f(c)
+    except Exception:
+        return False
+    return str(c) != s0
+
+
+def _renumber(m, r):
+    """(renumbered copy, mapping, flavour): permutation of the same numbers / sparse numbers with gaps up to 5000 / descending and shifted /
+    permutation + rebuilt container with shuffled insertion order of atoms and bonds"""
+    from bounded.domains import rebuild
+    flavour = r.choice(('perm', 'perm', 'sparse', 'descending', 'rebuild'))
+    nums = list(m)
+    if flavour == 'sparse':
+        tgt = r.sample(range(1, 5001), len(nums))
+    elif flavour == 'descending':
+        top = max(nums, default=0) + r.choice((3, 1000, 2900))
+        tgt = [top - n for n in nums]
+    else:
+        tgt = nums[:]
+        r.shuffle(tgt)
+    mp = dict(zip(nums, tgt))
+    c = m.copy()
+    c.remap(mp)
+    if flavour == 'rebuild':
+        c = rebuild(c, r)
+    return c, mp, flavour
+
+
+def _contract_fails(bname, contract, m0, p0):
+    """attribution experiment for keyword variants: does the default-keyword function violate the same contract on the same input
+    (p0: the same renumbered input)?  Any error of the experiment itself counts as 'no'."""
+    f, kind, _ = FUNCS[bname]
+    try:
+        a = m0.copy()
+        try:
+            f(a)
+        except Exception:
+            return contract == 'exc'
+        if contract == 'heavy':
+            return O.heavy(a) != O.heavy(m0)
+        if contract in ('conserve', 'valid'):
+            h1 = O.total_h(a)
+            if h1 is None:
+                return True
+            dq, dh = O.net_charge(a) - O.net_charge(m0), h1 - O.total_h(m0)
+            if contract == 'conserve':
+                return bool(dq or dh) if kind == REARR else dq != dh
+            return bool(O.invalid_atoms(a))
+        if contract == 'idempotent':
+            b = a.copy()
+            f(b)
+            return str(b) != str(a)
+        if contract == 'renumber' and p0 is not None:
+            p = p0.copy()
+            f(p)
+            return str(p) != str(a)
+    except Exception:
+        pass
+    return False
+
+
 def _check_function(acc, fname, m0, src, r, renumber_ok=True, label=''):
     """m0 is not modified.  src: text identifying the input (SMILES + decoration)"""
     f, kind, _ = FUNCS[fname]
+    base = OPTION_BASE.get(fname)
     valid = O.weakly_valid(m0)          # the statement's precondition: every hydrogen count defined (and no multi-bonded hydrogen)
     strong = valid and not O.invalid_atoms(m0)
     a = m0.copy()
     acc.n += 1
     sig = None
+    uses_resonance = fname.startswith(('fix_resonance', 'standardize(', 'canonicalize('))  # standardize_charges does not call it
+    uses_rules = fname.startswith(('standardize(', 'canonicalize('))
+    # recorded root cause (independent predicate on the input): ferrocene branch of standardize_charges on a hydrogen-free ring carbanion
+    carbanion = fname.startswith(('standardize_charges(', 'canonicalize(')) and I.bare_ring_carbanion(m0)
+
+    def fam(contract, p0=None):
+        """function name in the key: the default-keyword function when it shows the same violation on the same input"""
+        if base is not None and _contract_fails(base, contract, m0, p0):
+            return base
+        return fname
+    # recorded root cause (independent predicate on input and function): a hydrogen atom with a covalent and a coordinate (order 8) bond is
+    # refused by implicify_hydrogens, which canonicalize calls; only that refusal (ValenceError raised there) carries the family key
+    hbond = valid and fname.startswith(('canonicalize(', 'implicify_hydrogens(')) and bool(I.hydrogen_bonded_hydrogens(m0))
+    if hbond:
+        acc.member('exc:ValenceError@hydrogen-with-coordinate-bond')
     try:
         f(a)
     except Exception as e:
-        if valid:
-            acc.v(f'exc:{type(e).__name__}@{fname}', f'{fname} raised {type(e).__name__}: {e} at {_where(e)} on valence-valid {src}',
+        if hbond and type(e).__name__ == 'ValenceError' and _where(e).endswith(':implicify_hydrogens'):
+            acc.v('exc:ValenceError@hydrogen-with-coordinate-bond', f'{fname} raised {type(e).__name__}: {e} at {_where(e)} on {src}: check_valence() '
+                  f'== [] but a hydrogen atom carries a coordinate bond', {'smiles': src, 'function': fname}, f'{type(e).__name__}: {e}')
+        elif valid and type(e).__name__ == 'ImplementationError':
+            # ignore=False: "standardization leads to invalid valences" is the 'valid' contract of the default-keyword function
+            sg = _signature(m0, a) if uses_resonance else None
+            if sg:
+                acc.member(_sig_key(sg, 'valid'))
+            acc.v(_sig_key(sg, 'valid') if sg else f'valid@{fam("valid")}', f'{fname} raised {type(e).__name__}: {e} on valence-valid {src}',
+                  {'smiles': src, 'function': fname, 'signature': sg}, f'{type(e).__name__}: {e}')
+        elif valid:
+            acc.v(f'exc:{type(e).__name__}@{fam("exc")}', f'{fname} raised {type(e).__name__}: {e} at {_where(e)} on valence-valid {src}',
                   {'smiles': src, 'function': fname, 'signature': sig}, f'{type(e).__name__}: {e}')
         else:
             acc.stat(f'exception-on-valence-invalid-input(not claimed):{type(e).__name__}@{fname}')
         return None
     s_in, s_a = str(m0), str(a)
-    uses_resonance = fname.startswith(('fix_resonance', 'standardize(', 'canonicalize('))  # standardize_charges does not call it
-    sig = O.resonance_signature(m0, a) if uses_resonance else None
+    sig = _signature(m0, a) if uses_resonance else None
 
-    def key(contract, out=None, inp=None):
-        """root-cause family: contract@function, or the recorded fix_resonance root cause when its signature is in the result"""
-        sg = sig or (O.resonance_signature(inp, out) if out is not None and uses_resonance else None)
-        return f'resonance:{sg}' if sg else f'{contract}@{fname}'
+    if sig:
+        for c in SIG_CONTRACTS.get(sig, ()):
+            acc.member(_sig_key(sig, c))
+    if carbanion:
+        for c in ('valid', 'idempotent'):
+            acc.member(f'{c}@bare-ring-carbanion')
+    isotope = renumber_ok and uses_rules and I.isotope_breaks_symmetry(m0) and _rule_fires_without_labels(f, m0)
+    if isotope:
+        acc.member('renumber:isotope-label-on-symmetric-rule-atoms')
+    unbalanced = None
+    if renumber_ok and fname.startswith('neutralize(') and 'keep_charge=False' not in fname:
+        unbalanced = I.neutralize_has_choice(m0)
+        acc.member(f'renumber@neutralize():{"unbalanced-sites" if unbalanced else "balanced-sites"}')
+
+    def key(contract, out=None, inp=None, p0=None):
+        """root-cause family: contract@function, or a recorded root cause named by an independent predicate (shape of the result of
+        fix_resonance / class of the input) TOGETHER WITH the contract that the record describes: another outcome is another key"""
+        sg = sig or (_signature(inp, out) if out is not None and uses_resonance else None)
+        if sg and contract in SIG_CONTRACTS.get(sg, ()):
+            return _sig_key(sg, contract)
+        if carbanion and contract in ('valid', 'idempotent'):
+            return f'{contract}@bare-ring-carbanion'
+        if contract == 'renumber' and isotope:
+            return 'renumber:isotope-label-on-symmetric-rule-atoms'
+        if contract == 'renumber' and unbalanced is not None:
+            return f'renumber@neutralize():{"unbalanced-sites" if unbalanced else "balanced-sites"}'
+        return f'{contract}@{fam(contract, p0)}'
     if s_in != s_a:
         acc.keys.add((fname, s_in))  # non-trivial: the function changed the molecule
         acc.stat(f'changed-by:{fname}')
@@ -151,7 +351,10 @@ def _check_function(acc, fname, m0, src, r, renumber_ok=True, label=''):
     acc.n += 1
     try:
         f(b)
-        if str(b) != s_a and not sig and uses_resonance and _resonance_flipflop(m0, a):
+        if MEASURE and uses_resonance and not sig and _resonance_flipflop(m0, a):
+            acc.member('resonance:not-idempotent')
+        # the recorded outcome is another resonance form (only bond orders and formal charges move); anything else keeps its own key
+        if str(b) != s_a and not sig and uses_resonance and I.only_electrons_moved(a, b) and _resonance_flipflop(m0, a):
             # recorded root cause: fix_resonance moves the charge of N-substituted amidinium/guanidinium cations back and forth
             acc.v('resonance:not-idempotent', f'{fname}: fix_resonance alone is not idempotent on {src}: {s_a} -> {b}',
                   {'smiles': src, 'function': fname, 'signature': sig}, str(b))
@@ -159,13 +362,14 @@ def _check_function(acc, fname, m0, src, r, renumber_ok=True, label=''):
             acc.v(key('idempotent', b, a), f'{fname} twice differs from once on {src}: {s_a} -> {b}', {'smiles': src, 'function': fname, 'signature': sig}, str(b))
     except Exception as e:
         if valid:
-            acc.v(f'exc:{type(e).__name__}@{fname}', f'second {fname} raised {type(e).__name__}: {e} at {_where(e)} on {s_a}',
+            acc.v(f'exc:{type(e).__name__}@{fam("exc")}', f'second {fname} raised {type(e).__name__}: {e} at {_where(e)} on {s_a}',
                   {'smiles': src, 'function': fname, 'signature': sig}, f'{type(e).__name__}: {e}')
     # renumbering
     if renumber_ok:
-        p, mp = renumber(m0, r)
+        p, mp, flavour = _renumber(m0, r)
         p0 = p.copy()
         acc.n += 1
+        acc.stat(f'renumbering:{flavour}')
         if str(p) != s_in:
             acc.stat('gap_hits:input-string-not-numbering-independent(C01)')
         else:
@@ -173,25 +377,48 @@ def _check_function(acc, fname, m0, src, r, renumber_ok=True, label=''):
                 f(p)
             except Exception as e:
                 if valid:
-                    acc.v(f'exc:{type(e).__name__}@{fname}', f'{fname} raised {type(e).__name__}: {e} at {_where(e)} on renumbered {src}',
-                          {'smiles': src, 'function': fname, 'permutation': _perm_of(mp)}, f'{type(e).__name__}: {e}')
+                    acc.v(f'exc:{type(e).__name__}@{fam("exc")}', f'{fname} raised {type(e).__name__}: {e} at {_where(e)} on renumbered ({flavour}) {src}',
+                          {'smiles': src, 'function': fname, 'permutation': _perm_of(mp), 'flavour': flavour}, f'{type(e).__name__}: {e}')
                 return a
+            if MEASURE and uses_resonance and _resonance_choice(m0, p0, mp):
+                acc.member('resonance:choice-by-atom-number')
             if str(p) != s_a:
                 a2 = a.copy()
                 a2.remap(mp)
                 if str(a2) != s_a:
                     acc.stat('gap_hits:output-string-not-numbering-independent(C01)')
-                elif uses_resonance and _resonance_choice(m0, p0):
+                elif 'keep_kekule=True' in fname and _same_aromatic_form(a, p):
+                    # which of several Kekule structures of one aromatic system is returned is not claimed ("return kekule form")
+                    acc.stat('kekule-structure-choice-differs-under-renumbering(not claimed)')
+                elif uses_resonance and I.only_electrons_moved(a, p, mp) and _resonance_choice(m0, p0, mp):
                     # recorded root cause: fix_resonance pairs donors and acceptors in set.pop() order of the atom numbers
                     acc.v('resonance:choice-by-atom-number', f'{fname}: fix_resonance alone already depends on numbering for {src}: {s_a} vs {p}',
-                          {'smiles': src, 'function': fname, 'permutation': _perm_of(mp)}, str(p))
+                          {'smiles': src, 'function': fname, 'permutation': _perm_of(mp), 'flavour': flavour}, str(p))
                 else:
-                    acc.v(key('renumber', p, p0), f'{fname} depends on numbering for {src}: {s_a} vs {p} under {_perm_of(mp)[:120]}',
-                          {'smiles': src, 'function': fname, 'permutation': _perm_of(mp)}, str(p))
+                    acc.v(key('renumber', p, p0, p0), f'{fname} depends on numbering ({flavour}) for {src}: {s_a} vs {p} under {_perm_of(mp)[:120]}',
+                          {'smiles': src, 'function': fname, 'permutation': _perm_of(mp), 'flavour': flavour}, str(p))
     return a
 
 
+def _tally(acc, n0):
+    """tightness bookkeeping: per known-family key, cases where its predicate holds (members) and cases where it was emitted (failing)"""
+    emitted = {v[0] for v in acc.viol[n0:]}
+    for k in acc.members | emitted:
+        acc.stat(f'family|{k}|members')
+        if k in emitted:
+            acc.stat(f'family|{k}|failing')
+    acc.members = set()
+
+
 def check_function(acc, fname, m0, src, r, renumber_ok=True, label=''):
+    n0 = len(acc.viol)
+    try:
+        return _check_function_(acc, fname, m0, src, r, renumber_ok, label)
+    finally:
+        _tally(acc, n0)
+
+
+def _check_function_(acc, fname, m0, src, r, renumber_ok=True, label=''):
     try:
         return _check_function(acc, fname, m0, src, r, renumber_ok, label)
     except Exception as e:
@@ -203,14 +430,34 @@ def check_function(acc, fname, m0, src, r, renumber_ok=True, label=''):
         return None
 
 
-def _resonance_choice(m0, p0):
-    """attribution experiment: does fix_resonance alone (on the given form and on the Kekule form) depend on the numbering?"""
-    for kek in (False, True):
-        x, y = m0.copy(), p0.copy()
+def _same_aromatic_form(x, y):
+    x, y = x.copy(), y.copy()
+    x.thiele(fix_tautomers=False)
+    y.thiele(fix_tautomers=False)
+    return str(x) == str(y)
+
+
+def _resonance_choice(m0, p0, mp=None):
+    """attribution experiment: does fix_resonance alone depend on the numbering?  Tried on the given form, on the Kekule forms (only when
+    kekule() chose the same Kekule structure for both numberings) and on ONE Kekule structure of m0 under the same renumbering mp"""
+    trials = [(m0, p0, False), (m0, p0, True)]
+    if mp is not None:
+        try:
+            k = m0.copy()
+            k.kekule()
+            kp = k.copy()
+            kp.remap(mp)
+            trials.append((k, kp, False))
+        except Exception:
+            pass
+    for a, b, kek in trials:
+        x, y = a.copy(), b.copy()
         try:
             if kek:
                 x.kekule()
                 y.kekule()
+                if str(x) != str(y):
+                    continue  # another Kekule structure was chosen under the renumbering: nothing can be attributed to fix_resonance
             x.fix_resonance()
             y.fix_resonance()
         except Exception:
@@ -238,10 +485,11 @@ def _resonance_flipflop(*mols):
     return False
 
 
-def check_inverse(acc, m0, src):
+def check_inverse(acc, m0, src, start_map=None):
     """explicify/implicify mutually inverse on Kekule forms; conservation only on aromatic forms"""
-    if not O.weakly_valid(m0):
+    if not O.weakly_valid(m0) or I.hydrogen_bonded_hydrogens(m0):
         return
+    kw = {} if start_map is None else {'start_map': max(m0._atoms, default=0) + start_map}
     k = m0.copy()
     try:
         k.kekule()
@@ -253,7 +501,7 @@ def check_inverse(acc, m0, src):
     e = k.copy()
     acc.n += 2
     try:
-        n_add = e.explicify_hydrogens()
+        n_add = e.explicify_hydrogens(**kw)
         s_e = str(e)
         i = e.copy()
         n_rem = i.implicify_hydrogens()
@@ -261,7 +509,7 @@ def check_inverse(acc, m0, src):
             acc.v('inverse:implicify.explicify', f'implicify(explicify(k)) != k on the Kekule form of {src}: {s_k} -> {i} (added {n_add}, removed {n_rem})',
                   {'smiles': src}, str(i))
         j = i.copy()
-        j.explicify_hydrogens()
+        j.explicify_hydrogens(**kw)
         if str(j) != s_e:
             acc.v('inverse:explicify.implicify', f'explicify(implicify(E)) != E on the explicit Kekule form of {src}', {'smiles': src}, str(j))
         if n_add:
@@ -271,7 +519,7 @@ def check_inverse(acc, m0, src):
               {'smiles': src}, f'{type(x).__name__}: {x}')
     # aromatic form: conservation only
     t = m0.copy()
-    t.explicify_hydrogens()
+    t.explicify_hydrogens(**kw)
     u = t.copy()
     u.implicify_hydrogens()
     for x, nm in ((t, 'explicify_hydrogens()'), (u, 'implicify_hydrogens()')):
@@ -279,42 +527,157 @@ def check_inverse(acc, m0, src):
             acc.v(f'conserve@{nm}:aromatic', f'{nm} on the aromatic form of {src} changed composition', {'smiles': src}, format(x, 'h'))
 
 
-def check_tautomers(acc, m0, src, r, renumber_ok):
-    if not O.weakly_valid(m0) or len(m0) > 40:
+def _enumerate(m0, opts):
+    """first TAUT_LIMIT tautomers with the composition observed AT YIELD TIME (a later step of the generator must not be able to hide or
+    to produce a difference): [(tautomer, canonical string, heavy, charge, hydrogens, invalid atoms or None)]"""
+    kw = dict(opts)
+    kw.setdefault('limit', TAUT_LIMIT * 4)
+    strong = not O.invalid_atoms(m0)
+    out = []
+    for t in itertools.islice(m0.enumerate_tautomers(**kw), TAUT_LIMIT):
+        out.append((t, str(t), O.heavy(t), O.net_charge(t), O.total_h(t), (O.invalid_atoms(t) or None) if strong else None, _raw(t)))
+    return out
+
+
+def _raw(t):
+    return (tuple((n, a.atomic_number, a.charge, a.is_radical, a.implicit_hydrogens) for n, a in t.atoms()),
+            tuple(sorted((min(n, k), max(n, k), b.order) for n, k, b in t.bonds())))
+
+
+def _invalid_shape(t, inv):
+    """abstracted outcome of an invalid tautomer (part of the key: another wrong outcome is another key)"""
+    if inv == ['no-kekule-form']:
+        return 'no-kekule-form'
+    if I.hypervalent_carbons(t):
+        return 'hypervalent-carbon'
+    return 'other-atoms'
+
+
+def _taut_contracts(m0, ts):
+    """{contract: (text, witness tautomer string)} violated by the enumerated tautomers of m0"""
+    hv, q, h = O.heavy(m0), O.net_charge(m0), O.total_h(m0)
+    bad = {}
+    seen = {}
+    for t, st, thv, tq, th, inv, raw in ts:
+        # neutralisation inside the enumeration moves protons between sites of the same molecule: total conserved
+        if thv != hv:
+            bad.setdefault('heavy', (f'tautomer {st} has other heavy atoms', st))
+        elif tq != q or th != h:
+            bad.setdefault('conserve', (f'tautomer {st}: charge {q}->{tq}, hydrogens {h}->{th}', st))
+        elif inv:
+            bad.setdefault(f'valid:{_invalid_shape(t, inv)}', (f'tautomer {st} has a valence error on {inv[:5]}', st))
+        if _raw(t) != raw:
+            bad.setdefault('yielded-then-mutated', (f'tautomer {st} was changed by the generator after it had been yielded (now {format(t, "h")})', st))
+        if st in seen:
+            bad.setdefault('duplicate', (f'tautomer {st} is yielded twice (positions {seen[st]} and {len(seen)}): not de-duplicated by canonical form', st))
+        seen.setdefault(st, len(seen))
+    return bad
+
+
+# recorded root cause "keto-enol paths are not validated": key per abstracted outcome (the first one is the shape the original record describes)
+KETO_ENOL_KEYS = {'valid:hypervalent-carbon': 'valid@enumerate_tautomers', 'valid:no-kekule-form': 'valid@enumerate_tautomers:no-kekule-form'}
+
+
+def _has_stereo(m):
+    return any(a.stereo is not None for _, a in m.atoms()) or any(b.stereo is not None for _, _, b in m.bonds())
+
+
+def _taut_exc_key(e, m0, call, stale):
+    """recorded root cause (independent predicate `stale`: a stereo-labelled atom of the input changes hybridisation in a keto-enol tautomer of
+    the label-free molecule; AND the outcome is the recorded one: KeyError raised in the stereo code while a yielded copy is hashed /
+    printed): a keto-enol copy keeps the stereo label of an atom that became sp2.  Any other exception names where it was raised."""
+    w = _where(e)
+    if type(e).__name__ == 'KeyError' and w.startswith('algorithms/stereo.py:') and stale:
+        return 'exc:KeyError@enumerate_tautomers'
+    return f'exc:{type(e).__name__}@{call}:{w}'
+
+
+def _from_keto_enol_stage(mo, opts):
+    """attribution experiment: no tautomer is invalid when the same call is repeated with keto_enol=False"""
+    if not opts.get('keto_enol', True):
+        return False
+    try:
+        return not any(x[5] for x in _enumerate(mo, dict(opts, keto_enol=False)))
+    except Exception:
+        return False
+
+
+def check_tautomers(acc, m0, src, r, renumber_ok, options=()):
+    n0 = len(acc.viol)
+    try:
+        return _check_tautomers(acc, m0, src, r, renumber_ok, options)
+    finally:
+        _tally(acc, n0)
+
+
+def _check_tautomers(acc, m0, src, r, renumber_ok, options=()):
+    """composition contracts on the default call and on the keyword variants named in `options` (keys of TAUT_OPTS)"""
+    if not O.weakly_valid(m0) or len(m0) > 40 or I.hydrogen_bonded_hydrogens(m0):
         return
     acc.n += 1
-    hv, q, h = O.heavy(m0), O.net_charge(m0), O.total_h(m0)
+    stale = _has_stereo(m0) and I.stereo_touched_by_keto_enol(m0)
+    if stale:
+        acc.member('exc:KeyError@enumerate_tautomers')
+    ts = None
+
+    def vkey(c, mo, opts, call):
+        """key of a violated contract of one call: invalid tautomers of the two recorded shapes that come from the keto-enol stage keep the
+        recorded keys; everything else names the call (function + keyword setting) and, for invalid tautomers, the abstracted outcome"""
+        if c in KETO_ENOL_KEYS and _from_keto_enol_stage(mo, opts):
+            return KETO_ENOL_KEYS[c]
+        c, _, shape = c.partition(':')
+        return f'{c}@{call}' + (f':{shape}' if shape else '')
     try:
-        ts = list(itertools.islice(m0.enumerate_tautomers(limit=TAUT_LIMIT * 4), TAUT_LIMIT))
+        ts = _enumerate(m0, {})
     except Exception as e:
-        acc.v(f'exc:{type(e).__name__}@enumerate_tautomers', f'enumerate_tautomers raised {type(e).__name__}: {e} at {_where(e)} on {src}',
+        if not _library_exception(e):
+            raise
+        acc.v(_taut_exc_key(e, m0, 'enumerate_tautomers', stale), f'enumerate_tautomers raised {type(e).__name__}: {e} at {_where(e)} on {src}',
               {'smiles': src}, f'{type(e).__name__}: {e}')
-        return
-    strong = not O.invalid_atoms(m0)
-    if len(ts) > 1:
-        acc.keys.add(('tautomers', str(m0)))
-    for t in ts:
-        # neutralisation inside the enumeration moves protons between sites of the same molecule: total conserved
-        if O.heavy(t) != hv:
-            acc.v('heavy@enumerate_tautomers', f'tautomer {t} of {src} has other heavy atoms', {'smiles': src}, str(t))
-        elif O.net_charge(t) != q or O.total_h(t) != h:
-            acc.v('conserve@enumerate_tautomers', f'tautomer {format(t, "h")} of {src}: charge {q}->{O.net_charge(t)}, hydrogens {h}->{O.total_h(t)}',
-                  {'smiles': src}, str(t))
-        elif strong and O.invalid_atoms(t):
-            acc.v('valid@enumerate_tautomers', f'tautomer {format(t, "h")} of {src} has a valence error on {O.invalid_atoms(t)[:5]}',
-                  {'smiles': src}, str(t))
-    if renumber_ok and len(ts) < TAUT_LIMIT:
+    if ts is not None:
+        if len(ts) > 1:
+            acc.keys.add(('tautomers', str(m0)))
+        for c, (text, st) in _taut_contracts(m0, ts).items():
+            acc.v(vkey(c, m0, {}, 'enumerate_tautomers'), f'enumerate_tautomers of {src}: {text}', {'smiles': src}, st)
+    for name in options:
+        opts = TAUT_OPTS[name]
+        mo = m0
+        if opts.get('prepare_molecules') is False:  # documented precondition: Kekule form without explicit hydrogens
+            mo = m0.copy()
+            try:
+                mo.kekule()
+                mo.implicify_hydrogens()
+            except Exception:
+                continue
+        acc.n += 1
+        acc.stat(f'tautomer-option:{name}')
+        call = f'enumerate_tautomers({name})'
+        try:
+            to = _enumerate(mo, opts)
+        except Exception as e:
+            if not _library_exception(e):
+                raise
+            acc.v(_taut_exc_key(e, m0, call, stale), f'{call} raised {type(e).__name__}: {e} at {_where(e)} on {src}',
+                  {'smiles': src, 'options': name}, f'{type(e).__name__}: {e}')
+            continue
+        if len(to) > 1:
+            acc.keys.add(('tautomers', name, str(m0)))
+        for c, (text, st) in _taut_contracts(mo, to).items():
+            acc.v(vkey(c, mo, opts, call), f'{call} of {src}: {text}', {'smiles': src, 'options': name}, st)
+    if ts is not None and renumber_ok and len(ts) < TAUT_LIMIT:
         p, mp = renumber(m0, r)
         if str(p) == str(m0):
             try:
                 tp = list(itertools.islice(p.enumerate_tautomers(limit=TAUT_LIMIT * 4), TAUT_LIMIT))
             except Exception as e:
-                acc.v(f'exc:{type(e).__name__}@enumerate_tautomers', f'enumerate_tautomers raised {type(e).__name__}: {e} on renumbered {src}',
+                if not _library_exception(e):
+                    raise
+                acc.v(_taut_exc_key(e, m0, 'enumerate_tautomers', stale), f'enumerate_tautomers raised {type(e).__name__}: {e} on renumbered {src}',
                       {'smiles': src, 'permutation': _perm_of(mp)}, f'{type(e).__name__}: {e}')
                 return
-            if len(tp) < TAUT_LIMIT and {str(x) for x in tp} != {str(x) for x in ts}:
+            if len(tp) < TAUT_LIMIT and {str(x) for x in tp} != {x[1] for x in ts}:
                 # recorded gap of the property: hetero-arene tautomers are generated in match order
-                only = sorted({str(x) for x in tp} ^ {str(x) for x in ts})
+                only = sorted({str(x) for x in tp} ^ {x[1] for x in ts})
                 acc.stat('gap_hits:tautomer-set-differs-under-renumbering(recorded gap)')
                 if len(acc.samples) < 2:
                     acc.samples.append({'recorded_gap_tautomer_sets': src, 'only_in_one': only[:4]})
@@ -356,7 +719,7 @@ AZOLIUM = ['Cn1cc[nH+]c1C', 'C[n+]1cc[nH]c1C', 'c1cc2[nH+]ccn2[nH]1', 'C[n+]1ccn
 
 def check_keep_kekule(acc, m0, src):
     """canonicalize(keep_kekule=True) describes the same molecule as canonicalize(): aromatising its result gives the same string"""
-    if not O.weakly_valid(m0):
+    if not O.weakly_valid(m0) or I.hydrogen_bonded_hydrogens(m0):
         return
     a, b = m0.copy(), m0.copy()
     acc.n += 1
@@ -371,15 +734,44 @@ def check_keep_kekule(acc, m0, src):
             return
         raise
     if str(a) != str(b):
-        acc.v('keep-kekule-agrees@canonicalize', f'canonicalize(keep_kekule=True) then thiele gives {a}, canonicalize() gives {b} for {src}',
+        acc.v('keep-kekule-agrees@bare-ring-carbanion' if I.bare_ring_carbanion(m0) else 'keep-kekule-agrees@canonicalize', f'canonicalize(keep_kekule=True) then thiele gives {a}, canonicalize() gives {b} for {src}',
               {'smiles': src, 'function': 'keep-kekule-agrees'}, str(a))
     elif str(m0) != str(b):
         acc.keys.add(('keep-kekule', str(m0)))
 
 
+KEKULE_MARK = ' {Kekule form}'
+
+
+def _kekule_form(m):
+    """Kekule form of an aromatic molecule (None when there is no aromatic bond)"""
+    if not O.has_aromatic(m):
+        return None
+    k = m.copy()
+    try:
+        k.kekule()
+    except Exception:
+        return None
+    return k
+
+
+def _mol_checks(acc, mol, src, r, fixed_corpus, funcs, p_option, taut, taut_options):
+    for fname in funcs:
+        if fname in OPTION_BASE and r.random() >= p_option:
+            continue
+        check_function(acc, fname, mol, src, r, renumber_ok=fixed_corpus or FUNCS[fname][2])
+    check_inverse(acc, mol, src)
+    if r.random() < max(p_option, .5):
+        check_inverse(acc, mol, src, start_map=r.choice((1, 2, 1000)))
+    check_keep_kekule(acc, mol, src)
+    if taut:
+        check_tautomers(acc, mol, src, r, renumber_ok=fixed_corpus, options=taut_options)
+
+
 def _corpus_worker(item):
     _imports()
     idx, smi, tier = item
+    quick = tier == 'quick'
     acc = Acc()
     r = random.Random(f'{env.SEED}:b14:{idx}:{smi}')
     try:
@@ -416,17 +808,91 @@ def _corpus_worker(item):
             s_mol = s_mol | smiles(an)
         inputs.append((s_mol, f'{smi} + ' + ' + '.join(parts) + ' . ' + ' . '.join(ans), False))
         acc.stat('salts')
+    # Kekule form of one of the inputs (the functions are documented for both forms; parse() always gives the aromatic one)
+    if not quick or r.random() < .5:
+        km, ksrc, kfixed = r.choice(inputs)
+        k = _kekule_form(km)
+        if k is not None:
+            inputs.append((k, ksrc + KEKULE_MARK, kfixed))
+            acc.stat('kekule-form-inputs')
+    names = list(TAUT_OPTS)
     for mol, src, fixed_corpus in inputs:
         if len(acc.samples) < 1 and not fixed_corpus:
             acc.samples.append({'input': src, 'canonical': str(mol), 'valence_valid': not mol.check_valence()})
-        # seeded renumbering of the input itself (contracts are about f(pi.m))
-        for fname, (_, _, ren_dec) in FUNCS.items():
-            check_function(acc, fname, mol, src, r, renumber_ok=fixed_corpus or ren_dec)
-        check_inverse(acc, mol, src)
-        check_keep_kekule(acc, mol, src)
-        if fixed_corpus or r.random() < .3:
-            check_tautomers(acc, mol, src, r, renumber_ok=fixed_corpus)
+        taut = fixed_corpus or r.random() < .3
+        _mol_checks(acc, mol, src, r, fixed_corpus, FUNCS, .34 if quick else 1., taut, r.sample(names, 2 if quick else 5))
     return acc.pack()
+
+
+def _special_worker(item):
+    """input classes the corpus lacks: every function variant, every keyword of enumerate_tautomers; numbering independence with tautomer
+    fixing enabled is not asserted (claimed for the fixed corpus only)"""
+    _imports()
+    idx, cls, smi, tier = item
+    acc = Acc()
+    r = random.Random(f'{env.SEED}:b14:{cls}:{idx}:{smi}')
+    if cls == 'empty':
+        # the empty molecule has no canonical string (the SMILES writer raises on it: not this property), so only 'never fails' and
+        # 'heavy atoms unchanged' are checked, and enumerate_tautomers (which hashes its results by canonical string) is left out
+        from chython.containers import MoleculeContainer
+        for fname, (f, _, _) in FUNCS.items():
+            m = MoleculeContainer()
+            acc.n += 1
+            try:
+                f(m)
+                f(m)
+            except Exception as e:
+                if not _library_exception(e):
+                    raise
+                acc.v(f'exc:{type(e).__name__}@{fname}:empty-molecule', f'{fname} raised {type(e).__name__}: {e} at {_where(e)} on the empty molecule',
+                      {'smiles': '', 'function': fname}, f'{type(e).__name__}: {e}')
+                continue
+            if len(m):
+                acc.v(f'heavy@{fname}:empty-molecule', f'{fname} added atoms to the empty molecule', {'smiles': '', 'function': fname}, repr(list(m)))
+        acc.stat('inputs:empty')
+        return acc.pack()
+    else:
+        try:
+            m = parse(smi)
+        except Exception as e:
+            if cls in ('atlas', 'charged-rule-instances'):
+                raise  # texts written by the library itself
+            acc.stat(f'special-input-not-parsed:{cls}')
+            return acc.pack()
+    acc.stat(f'inputs:{cls}')
+    inputs = [(m, smi)]
+    k = _kekule_form(m)
+    if k is not None:
+        inputs.append((k, smi + KEKULE_MARK))
+    if len(acc.samples) < 1 and idx == 0:
+        acc.samples.append({'input_class': cls, 'input': smi, 'canonical': str(m), 'valence_valid': not m.check_valence()})
+    for mol, src in inputs:
+        if cls == 'charged-rule-instances':
+            for fname in CHARGE_FUNCS:
+                check_function(acc, fname, mol, src, r, renumber_ok=FUNCS[fname][2])
+            check_keep_kekule(acc, mol, src)
+        elif cls == 'atlas':
+            _mol_checks(acc, mol, src, r, False, FUNCS, .34 if tier == 'quick' else 1., r.random() < .5, r.sample(list(TAUT_OPTS), 2))
+        else:
+            _mol_checks(acc, mol, src, r, False, FUNCS, 1., True, list(TAUT_OPTS))
+    return acc.pack()
+
+
+def special_items(tier):
+    """(index, class, SMILES text, tier) of every added input class"""
+    from bounded.domains import decorated_atlas
+    items = []
+    for cls in ('RADICALS', 'ONIUM_ZWITTERIONS', 'EXPLICIT_H', 'H_BONDED', 'ISOTOPES', 'CYCLOPENTADIENYLS', 'HIGH_CHARGE_METALS', 'TINY', 'TAUTOMERIC'):
+        items += [(j, cls.lower(), x, tier) for j, x in enumerate(getattr(I, cls))]
+    items.append((0, 'empty', '', tier))
+    items += [(j, 'charged-rule-instances', x, tier) for j, x in enumerate(I.charged_rule_instances(env.repo_path))]
+    seen = set()
+    for g, el, od, m in decorated_atlas(max_nodes=5 if tier == 'quick' else 6, trials=3 if tier == 'quick' else 4, tag='b14-atlas'):
+        t = str(m)
+        if t not in seen:
+            seen.add(t)
+            items.append((len(seen), 'atlas', t, tier))
+    return items
 
 
 def _rule_worker(item):
@@ -582,11 +1048,15 @@ def replay(rec):
         kind = key.split('documented:')[1].split(':')[0]
         res = _pairs_worker((kind, w['input'], w['output']))
         return not any(v[0] == key for v in res[3])
+    if key.endswith(':empty-molecule'):
+        res = _special_worker((0, 'empty', '', 'quick'))
+        return not any(v[0] == key for v in res[3])
     # corpus / decorated input: the witness text is "<smiles> + <group>" or "<smiles> . <ion>" or a plain smiles
     src = w.get('smiles', '')
     fname = w.get('function')
     r = random.Random(f'{env.SEED}:replay:{src}')
-    head, *ions = src.split(' . ')
+    text, kek = (src[:-len(KEKULE_MARK)], True) if src.endswith(KEKULE_MARK) else (src, False)
+    head, *ions = text.split(' . ')
     smi, *groups = head.split(' + ')
     mols = []
     for k in range(24 if groups else 1):  # attachment sites were seeded choices: try the possible sites
@@ -598,16 +1068,20 @@ def replay(rec):
             continue
         for ion in ions:
             m = m | smiles(ion)
+        if kek:
+            m.kekule()
         mols.append(m)
     for m in mols:
-        for k in range(6):
+        for k in range(12):
             if fname in FUNCS:
                 check_function(acc, fname, m, src, r)
             elif fname == 'keep-kekule-agrees':
                 check_keep_kekule(acc, m, src)
             else:
                 check_inverse(acc, m, src)
-                check_tautomers(acc, m, src, r, True)
+                check_inverse(acc, m, src, start_map=(1, 2, 1000)[k % 3])
+                check_tautomers(acc, m, src, r, True, options=[w['options']] if w.get('options') in TAUT_OPTS else ())
+                break
     fam = key.split(':' + src)[0] if src else key
     return not any(v[0].startswith(fam) for v in acc.viol)
 
@@ -622,6 +1096,8 @@ def bounded(run):
     r = rnd('b14-corpus')
     idx = r.sample(range(len(cs)), n)
     res = pmap(_corpus_worker, [(i, cs[i], run.tier) for i in idx] + [(100000 + j, x, run.tier) for j, x in enumerate(AZOLIUM)], chunksize=2)
+    sp = special_items(run.tier)
+    res_s = pmap(_special_worker, sp, chunksize=2)
     t1 = time.time()
     rules = [(name, i) for name, i, *_ in O.rule_tables()]
     res_r = pmap(_rule_worker, rules, chunksize=4)
@@ -630,7 +1106,7 @@ def bounded(run):
     t2 = time.time()
     stats = {}
     found = {}
-    for part in (res, res_r, res_p):
+    for part in (res, res_s, res_r, res_p):
         for cnt, keys, samples, viol, st in part:
             run.case(cnt)
             run.nontrivial.update(keys)
@@ -652,6 +1128,18 @@ def bounded(run):
               f'{len(O.GROUPS)} (valid and "wrong" spellings the rule tables mention) attached to a seeded CH and (b) mixed with one of '
               f'{len(O.COUNTER_IONS)} counter-ions/acids and (c) as a salt/zwitterion: 1-2 of {len(O.CATION_GROUPS)} ammonium groups attached + 1-2 of {len(O.ANIONS)} anions (balanced and unbalanced, so every branch of neutralize runs); one seeded renumbering per contract; {len(FUNCS)} function variants + explicify/implicify inverse '
               f'+ enumerate_tautomers (first {TAUT_LIMIT} tautomers, molecules <= 40 atoms, all corpus inputs and 30 % of the decorated ones)')
+    ncls = {}
+    for _, cls, _, _ in sp:
+        ncls[cls] = ncls.get(cls, 0) + 1
+    run.bound(f'keywords: {len(OPTION_BASE)} keyword variants (logging=True, ignore=False, prepare_molecule=False, start_map) of the observed functions on '
+              f'{"a seeded 34 % of the (input, variant) pairs" if quick else "every input"} of the corpus part and on every added input; enumerate_tautomers with '
+              f'{len(TAUT_OPTS)} keyword settings ({2 if quick else 5} seeded settings per corpus input, all on the added tautomeric inputs); '
+              f'renumbering flavour seeded per contract from: permutation (2/5), sparse numbers <= 5000, descending + shift, permutation + shuffled insertion order; '
+              f'the Kekule form of {"a seeded half" if quick else "each"} of the corpus entries (one seeded input of the entry)')
+    run.bound(f'added input classes (each also in Kekule form when aromatic; all function variants; numbering independence only for the variants with tautomer fixing off): '
+              f'{ncls}; atlas = valence-valid seeded decorations (C/N/O/S, double and triple bonds) of every connected graph with <= '
+              f'{5 if quick else 6} nodes; charged-rule-instances = both sides of the {len(O.charged_examples(env.repo_path))} documented charge-rule examples and the {len(I.MORGAN_RULE_EXAMPLES)} Morgan-rule examples as written and '
+              f'with one methyl group on each hydrogen-bearing ring position, under {len(CHARGE_FUNCS)} standardize_charges / canonicalize variants')
     run.bound(f'rules: {len(rules)} rules of _groups (double, single) and _metal_organics on their own instantiated pattern '
               f'({len(rules) - len(not_inst)} instantiated; not instantiated: {[k[18:] for k in not_inst]}); {len(pairs)} documented pairs '
               f'(test_groups.py data and the A>>B comments of _charged.py)')
@@ -663,6 +1151,21 @@ def bounded(run):
                'standardize continues with a later rule the result is compared with standardize(right-hand side)',
                'renumbering with tautomer fixing enabled (standardize(), canonicalize(), enumerate_tautomers) is asserted on the undecorated corpus only '
                '(recorded gap of the property); differing tautomer sets under renumbering are counted, not reported',
+               'a violation shown by a keyword variant is filed under the default-keyword function when that function violates the same contract on the same '
+               'input (same renumbered copy); otherwise under the variant\'s own name',
+               'enumerate_tautomers: tautomers are compared as yielded (canonical string and composition taken at yield time); pairwise distinct canonical '
+               'strings are required (mechanism anchor: de-duplication by canonical form)',
                'non-trivial case = the function changed the canonical string of the input / the rule fired on its instance / the documented pair has a != b')
+    fams = {}
+    for k, v in stats.items():
+        if k.startswith('family|'):
+            _, fk, what = k.split('|')
+            fams.setdefault(fk, {'members': 0, 'failing': 0})[what] = v
+    if MEASURE:
+        for k in sorted(fams):
+            print(f'FAMILY {k:75s} members={fams[k]["members"]:6d} failing={fams[k]["failing"]:6d}')
     run.notes['b14'] = {'corpus_s': round(t1 - t0, 1), 'rules_pairs_s': round(t2 - t1, 1),
-                        'stats': {k: v for k, v in sorted(stats.items()) if not k.startswith('not-instantiated: ')}}
+                        # tightness of the family keys: (input, function) cases for which the family predicate holds / cases where it was emitted
+                        # (the experiment-based fix_resonance families are evaluated on non-failing cases only under VERIF_B14_MEASURE=1)
+                        'family_tightness': {k: fams[k] for k in sorted(fams)},
+                        'stats': {k: v for k, v in sorted(stats.items()) if not k.startswith(('not-instantiated: ', 'family|'))}}
